@@ -980,6 +980,32 @@ def all_pre_tasks(cfgs):
     return out
 
 
+class NewTap:
+    """while a loader runs, every runtime object created through `Config.__new__` (the first loop of `load_objects` calls
+    `cls.XPMValue.__new__(cls.XPMValue)`, `instance()` calls `XPMValue()`) is appended to the call log as `new`.
+    /repo is not touched: the attribute is replaced in this process and put back."""
+
+    def __enter__(self):
+        from experimaestro.core.objects import Config
+        from experimaestro.core.types import XPMValue
+        import xvlog
+        self.Config = Config
+        self.orig_new = Config.__dict__["__new__"]
+        new_fn = Config.__new__
+
+        def tapped_new(cls, *a, **kw):
+            o = new_fn(cls, *a, **kw)
+            if issubclass(cls, XPMValue):
+                xvlog.LOG.append(("new", o, [], None))
+            return o
+        Config.__new__ = staticmethod(tapped_new)
+        return self
+
+    def __exit__(self, *exc):
+        self.Config.__new__ = self.orig_new
+        return False
+
+
 def job_side(rootobj, root, is_task):
     """what the job process does: params.json written by `outputjson`, then `run.py::run` (task) or
     `fromParameters(as_instance=True)`; returns (call log, {id(config): runtime object}, returned object, definitions)"""
@@ -1013,16 +1039,17 @@ def job_side(rootobj, root, is_task):
     inst = None
     try:
         ConfigInformation.load_objects = staticmethod(tap)
-        if is_task:
-            import experimaestro.run as xrun
-            cwd = os.getcwd()
-            os.chdir(taskdir)
-            try:
-                xrun.run(params)
-            finally:
-                os.chdir(cwd)
-        else:
-            inst = ConfigInformation.fromParameters(defs, as_instance=True)
+        with NewTap():
+            if is_task:
+                import experimaestro.run as xrun
+                cwd = os.getcwd()
+                os.chdir(taskdir)
+                try:
+                    xrun.run(params)
+                finally:
+                    os.chdir(cwd)
+            else:
+                inst = ConfigInformation.fromParameters(defs, as_instance=True)
     finally:
         ConfigInformation.load_objects = staticmethod(orig_load)
         env.wspath = None
@@ -1105,8 +1132,9 @@ def run_c13(mod, lib, case, root, canon, datadir):
         return rec
     by_id = {id(o): o for o in objs}
     inst_index = {id(o): index[k] for k, o in loaded.items() if k in index}
-    rec["lines"].append({"op": "loadinst", "root": r, "body": is_task})
-    ev = events_json(log, inst_index)
+    rec["lines"].append({"op": "loadinst", "root": r, "body": is_task, "new": True})
+    ev = events_json(log, inst_index)       # with the object creations (`new`); the monitors below read the calls only
+    log = [e for e in log if e[0] != "new"]
     if is_task and ev and ev[-1][0] == "exec" and ev[-1][1] == r:
         ev[-1] = ["body", r]
     rec["impl"].append({"log": ev})
